@@ -180,10 +180,13 @@ def change_for_step(repo: Repo, chk: Check) -> None:
         muls = subexprs(val, "MuliOp($a, $b)") + subexprs(val, "arith.MuliOp($a, $b)")
         good = False
         for _, m in muls:
-            parts = [m["a"], m["b"]]
-            has_step = any(depends_on(p, "$op.step", binds={"op": op}) for p in parts)
-            has_iv = any(depends_on(p, "$_.body.block.args[0]") for p in parts)
-            good = good or (has_step and has_iv)
+            for p_, q_ in ((m["a"], m["b"]), (m["b"], m["a"])):
+                is_step = norm.match(T("$op.step"), norm.primary(p_), {"op": op}) is not None or (
+                    depends_on(p_, "$op.step", binds={"op": op}) and not depends_on(p_, "$_.body.block.args[0]")
+                    and not depends_on(p_, "$op.ub", binds={"op": op}) and not depends_on(p_, "$op.lb", binds={"op": op})
+                )
+                is_iv = norm.match(T("$_.body.block.args[0]"), norm.primary(q_)) is not None
+                good = good or (is_step and is_iv)
         chk.result(
             good,
             "C17.step-iv",
